@@ -184,9 +184,92 @@ func (w *walker) stmt(s ast.Stmt) {
 	}
 }
 
+// ---- second table: every write to a header map in the request-handling functions (C12, C18) ----
+
+// hdrKey renders headers.ACAO etc. as the Coq constant headers_ACAO
+func hdrKey(e ast.Expr) string {
+	if se, ok := e.(*ast.SelectorExpr); ok {
+		if id, ok := se.X.(*ast.Ident); ok && id.Name == "headers" {
+			return "headers_" + se.Sel.Name
+		}
+	}
+	return ""
+}
+
+func rhsKind(e ast.Expr) string {
+	switch e := e.(type) {
+	case *ast.SelectorExpr:
+		if id, ok := e.X.(*ast.Ident); ok {
+			if id.Name == "headers" && strings.HasSuffix(e.Sel.Name, "Sgl") {
+				return "(WShared " + e.Sel.Name + ")"
+			}
+			if id.Name == "icfg" {
+				return "(WCfg " + strings.ToUpper(e.Sel.Name[:1]) + e.Sel.Name[1:] + ")"
+			}
+		}
+	case *ast.Ident:
+		switch e.Name {
+		case "originSgl":
+			return "(WReq headers_Origin)"
+		case "acrmSgl":
+			return "(WReq headers_ACRM)"
+		case "acrh":
+			return "(WReq headers_ACRH)"
+		}
+	case *ast.CallExpr:
+		if id, ok := e.Fun.(*ast.Ident); ok && id.Name == "append" {
+			return "WAppend"
+		}
+	}
+	return "WUnknown"
+}
+
+func headerWrites(fd *ast.FuncDecl) []string {
+	var out []string
+	ast.Inspect(fd.Body, func(n ast.Node) bool {
+		switch n := n.(type) {
+		case *ast.AssignStmt:
+			for i, lhs := range n.Lhs {
+				ix, ok := lhs.(*ast.IndexExpr)
+				if !ok {
+					continue
+				}
+				m, ok := ix.X.(*ast.Ident)
+				k := hdrKey(ix.Index)
+				if !ok || k == "" || i >= len(n.Rhs) {
+					continue
+				}
+				out = append(out, fmt.Sprintf("(M%s, %s, %s)", m.Name, k, rhsKind(n.Rhs[i])))
+			}
+		case *ast.CallExpr:
+			se, ok := n.Fun.(*ast.SelectorExpr)
+			if !ok {
+				return true
+			}
+			if m, ok := se.X.(*ast.Ident); ok && len(n.Args) >= 1 {
+				if k := hdrKey(n.Args[0]); k != "" {
+					switch se.Sel.Name {
+					case "Add":
+						out = append(out, fmt.Sprintf("(M%s, %s, WAdd)", m.Name, k))
+					case "Set":
+						out = append(out, fmt.Sprintf("(M%s, %s, WSet)", m.Name, k))
+					case "Del":
+						out = append(out, fmt.Sprintf("(M%s, %s, WDel)", m.Name, k))
+					}
+				}
+				if m.Name == "maps" && se.Sel.Name == "Copy" {
+					out = append(out, "(MresHdrs, headers_Vary, WCopy)") // key irrelevant: marks a buffer copy
+				}
+			}
+		}
+		return true
+	})
+	return out
+}
+
 func main() {
-	if len(os.Args) != 3 {
-		fmt.Fprintln(os.Stderr, "usage: genconc <repo> <out.v>")
+	if len(os.Args) != 3 && len(os.Args) != 4 {
+		fmt.Fprintln(os.Stderr, "usage: genconc <repo> <ConcSrc.v> [<ProvSrc.v>]")
 		os.Exit(2)
 	}
 	fset := token.NewFileSet()
@@ -264,6 +347,46 @@ func main() {
 		if err := os.WriteFile(os.Args[2], []byte(sb.String()), 0o644); err != nil {
 			fmt.Fprintln(os.Stderr, err)
 			os.Exit(1)
+		}
+	}
+	if len(os.Args) == 4 {
+		var pb strings.Builder
+		pb.WriteString("(* GENERATED by tools/genconc from /repo/middleware.go on every run. DO NOT EDIT. *)\n")
+		pb.WriteString("From Coq Require Import List.\nImport ListNotations.\nRequire Import Base.Bytes Gen.Tables Model.Prov.\n\n")
+		want := []string{"handleNonCORS", "handleCORSPreflight", "processOriginForPreflight", "processACRPN", "handleCORSActual", "processACRM", "processACRH"}
+		found := map[string]bool{}
+		for _, d := range f.Decls {
+			fd, ok := d.(*ast.FuncDecl)
+			if !ok || fd.Body == nil {
+				continue
+			}
+			for _, wn := range want {
+				if fd.Name.Name == wn {
+					found[wn] = true
+					pb.WriteString(fmt.Sprintf("Definition go_writes_%s : list wev := [%s].\n", wn, strings.Join(headerWrites(fd), "; ")))
+				}
+			}
+		}
+		for _, wn := range want {
+			if !found[wn] {
+				fmt.Fprintln(os.Stderr, "genconc: function not found:", wn)
+				os.Exit(1)
+			}
+		}
+		// header writes anywhere else in the file (there should be none)
+		other := 0
+		for _, d := range f.Decls {
+			if fd, ok := d.(*ast.FuncDecl); ok && fd.Body != nil && !found[fd.Name.Name] {
+				other += len(headerWrites(fd))
+			}
+		}
+		pb.WriteString(fmt.Sprintf("Definition go_header_writes_elsewhere : nat := %d.\n", other))
+		oldp, _ := os.ReadFile(os.Args[3])
+		if string(oldp) != pb.String() {
+			if err := os.WriteFile(os.Args[3], []byte(pb.String()), 0o644); err != nil {
+				fmt.Fprintln(os.Stderr, err)
+				os.Exit(1)
+			}
 		}
 	}
 }
